@@ -2,6 +2,7 @@
 package main
 
 import (
+	"encoding/json"
 	"fmt"
 	"os"
 
@@ -35,6 +36,7 @@ var props = map[string]struct {
 	"C31":    {"model_checking", h.C31},
 	"C24":    {"exploration", h.C24},
 	"C25":    {"exploration", h.C25},
+	"C26":    {"exploration", h.C26},
 	"C27":    {"exploration", h.C27},
 	"C28":    {"exploration", h.C28},
 	"C29":    {"exploration", h.C29},
@@ -60,6 +62,16 @@ func main() {
 		if os.Args[i] == "--replay" && i+1 < len(os.Args) {
 			run.Replay = os.Args[i+1]
 			i++
+			// replays of drivers without a dedicated replay path re-run the recorded exploration
+			if b, err := os.ReadFile(run.Replay); err == nil {
+				var m struct {
+					Seed *int64 `json:"verif_seed"`
+					Tier string `json:"verif_tier"`
+				}
+				if json.Unmarshal(b, &m) == nil && m.Seed != nil {
+					run.Seed, run.Tier = *m.Seed, m.Tier
+				}
+			}
 		}
 	}
 	defer func() {
